@@ -144,6 +144,11 @@ Regenerate(g) ==
   /\ Len(GenNodes(gNextH)) <= MaxNodes /\ Len(GenNodes(gNextH)) > 0
   /\ Set(g, Generated(gNextH), [op |-> "Regenerate", g |-> g, h0 |-> gNextH, res |-> "ok"])
   /\ BumpG(Len(GenNodes(gNextH)))
+\* another AttackGraph is generated from the same model and kept by the caller: frame condition - the graphs in the
+\* slots, their attackers and everything later done to them are unaffected (nothing is shared through the model)
+Sibling ==
+  /\ vAssets # <<>> /\ Generable /\ gS["main"].exists /\ gS["main"].hasModel /\ gAct.op # "Sibling"
+  /\ gAct' = [op |-> "Sibling", g |-> "main", res |-> "ok"] /\ UNCHANGED <<mvars, gS, gNextH>>
 AddNode(g, kind, reqId) ==
   /\ gS[g].exists /\ Len(gS[g].nodes) < MaxNodes
   /\ IF reqId # NoId /\ reqId \in NodeIds(gS[g])
@@ -222,6 +227,7 @@ On(op) == op \in GOpsOn
 GraphNext ==
   \/ On("Generate") /\ \E g \in {"main"} : Generate(g)
   \/ On("Regenerate") /\ Regenerate("main")
+  \/ On("Sibling") /\ Sibling
   \/ On("AddNode") /\ \E g \in Slots, k \in ExtraKinds, i \in GIdPool : AddNode(g, k, i)
   \/ On("Link") /\ \E g \in Slots : \E p, c \in NodeHs(gS[g]) : LinkNodes(g, p, c)
   \/ On("RemoveNode") /\ \E g \in Slots : \E h \in NodeHs(gS[g]) : RemoveNode(g, h)
